@@ -98,10 +98,16 @@ PROPS['C07'] = {
 PROPS['C08'] = {
     'never_returns': NEVER_RETURNS,
     'functions': sorted(set(RUN + all_ops() + CLASSES)),
-    'select': [r'ks-frame', r'run_script/post/cache_ok', r'item-is-bytes', r'^classes\.Stack\.put/refine'],
+    'select': [r'ks-frame', r'run_script/post/cache_ok', r'item-is-bytes', r'^classes\.Stack\.put/refine',
+               r'^bounded/C08/'],
     'trusted_base': TRUSTED_COMMON,
     'assumptions': ASSUME_COMMON + ['as the property says: no plugin or contract installed (the frame clause is '
-                                    'conditional on no_plugins_at_all)'],
+                                    'conditional on no_plugins_at_all)',
+                                    'the proved frame clause is about (re)binding of str keys; that no instruction '
+                                    'mutates a *mutable* value (bytearray / list) held under a str key in place is '
+                                    'outside the sidecar\'s input assumption (sigfields are bytes) and is covered only '
+                                    'by the bounded stand-in c08_mutable_values, labelled bounded'],
+    'extra': ['props.bounded:c08_mutable_values'],
     'explanation': 'frame clause on the str key space of the cache for every instruction, on normal and exceptional '
                    'exits; the key kind of every store / delete is decided from the expression',
 }
